@@ -413,6 +413,29 @@ pub enum RenamedEnum {
 }
 fam!(RenamedEnum, "enum RenamedEnum(escaped names)", vec![RenamedEnum::V { f: 1 }, RenamedEnum::T(2, true), RenamedEnum::N("s".into()), RenamedEnum::U]);
 
+/// variants with nothing in them and newtype variants whose payload is written as null
+#[derive(Serialize, Deserialize, PartialEq, Debug)]
+pub enum EdgeVariants {
+    T0(),
+    S0 {},
+    Opt(Option<u8>),
+    UnitPayload(()),
+    StructPayload(UnitStruct),
+    Nested(Option<Option<bool>>),
+    Plain,
+}
+fam!(EdgeVariants, "enum EdgeVariants(empty and null payloads)", vec![
+    EdgeVariants::T0(),
+    EdgeVariants::S0 {},
+    EdgeVariants::Opt(None),
+    EdgeVariants::Opt(Some(3)),
+    EdgeVariants::UnitPayload(()),
+    EdgeVariants::StructPayload(UnitStruct),
+    EdgeVariants::Nested(None),
+    EdgeVariants::Nested(Some(Some(true))),
+    EdgeVariants::Plain
+]);
+
 /// map keys that are newtype structs around scalars
 #[derive(Serialize, Deserialize, PartialEq, Eq, PartialOrd, Ord, Debug, Clone, Copy)]
 pub struct KeyId(pub u64);
@@ -492,6 +515,7 @@ macro_rules! for_each_fam {
         $m!(std::collections::BTreeMap<$crate::types::KeyId, Vec<u8>>);
         $m!(std::collections::BTreeMap<$crate::types::KeyFlag, u8>);
         $m!(std::collections::BTreeMap<$crate::types::KeyName, i8>);
+        $m!($crate::types::EdgeVariants);
         $m!($crate::types::Renamed);
         $m!($crate::types::RenamedEnum);
         $m!(Box<[u8]>);
